@@ -60,6 +60,8 @@ struct Behaviour {
     alloc_sz: u64,
     /// grow the first block by this many bytes and shrink it back (0 = no reallocation)
     realloc_by: u64,
+    /// allocate only in calls whose ordinal j has j % modu == alloc_res (-1 = in every call)
+    alloc_res: i64,
     bcounters: Vec<(u8, u64)>,
     /// 0 bench, 1 bench_local, 2 with_inputs+bench_values, 3 no bench call, 4 bench_refs with input counter (items = id)
     mode: u8,
@@ -161,7 +163,7 @@ fn parse_opts(s: &str) -> Opts {
 }
 
 fn parse_beh(s: &str) -> Behaviour {
-    let mut b = Behaviour { cost: 10, modu: 1, ..Default::default() };
+    let mut b = Behaviour { cost: 10, modu: 1, alloc_res: -1, ..Default::default() };
     for kv in s.split(';').filter(|x| !x.is_empty() && *x != "-") {
         let (k, v) = kv.split_once(':').expect("beh");
         match k {
@@ -171,6 +173,7 @@ fn parse_beh(s: &str) -> Behaviour {
             "an" => b.alloc_n = v.parse().unwrap(),
             "az" => b.alloc_sz = v.parse().unwrap(),
             "rg" => b.realloc_by = v.parse().unwrap(),
+            "ar" => b.alloc_res = v.parse().unwrap(),
             "mode" => b.mode = v.parse().unwrap(),
             "bc" => {
                 for p in v.split(',').filter(|x| !x.is_empty()) {
@@ -245,7 +248,7 @@ fn body_call(bid: usize) {
         })
         .unwrap_or(0);
     clock::charge(beh.cost + beh.step * (j % beh.modu));
-    if beh.alloc_n > 0 {
+    if beh.alloc_n > 0 && (beh.alloc_res < 0 || (j % beh.modu) as i64 == beh.alloc_res) {
         // all blocks live at once, then all freed
         let mut blocks: [*mut u8; 8] = [std::ptr::null_mut(); 8];
         let n = (beh.alloc_n as usize).min(8);
